@@ -7,11 +7,13 @@ mod fullrun;
 mod irr;
 mod junos_model;
 mod mem;
+mod net;
 mod ops;
 mod props;
 mod replygen;
 mod running;
 mod sched;
+mod script;
 mod sess;
 mod strings;
 mod xmlgen;
